@@ -139,8 +139,18 @@ func vfC10Run(c vfC10Case, ctx *vlib.Ctx) *vlib.Failure {
 		if res.nonAdvancing != "" {
 			return vlib.Failf("resume:does-not-terminate", "%s: %s (the pass no longer advances; it would spin forever)", where, res.nonAdvancing)
 		}
-		if res.plotErr != nil {
+		if res.plotErr != nil && !res.faultFired {
 			return vlib.Failf("plot:error", "%s: Plot returned %v", where, res.plotErr)
+		}
+		if res.faultFired {
+			// the flush of one window could not be written: whatever Plot() reports, the space must not be left
+			// claiming more than it holds (judged below like any other interruption)
+			ctx.Label("write-fault-injected")
+			if res.plotErr == nil {
+				ctx.Label("write-fault:plot-reported-success")
+			}
+			interruptions++
+			insidePass = true
 		}
 		if res.mapAAtRemove != nil {
 			res.mapAAtRemove.Msg = where + ": " + res.mapAAtRemove.Msg
@@ -197,7 +207,11 @@ func vfGenC10(t *rapid.T) vfC10Case {
 	n := rapid.IntRange(1, 3).Draw(t, "interruptions")
 	for i := 0; i < n; i++ {
 		p := vfGenPlan(t, fmt.Sprintf("r%d", i), bl)
-		p.Stop = &vfStopAt{Point: rapid.SampledFrom(vfStopPoints).Draw(t, "stopPoint"), Nth: rapid.IntRange(1, 4).Draw(t, "nth")}
+		if rapid.IntRange(0, 4).Draw(t, "writeFault") == 0 {
+			p.WriteFault = &vfStopAt{Point: rapid.SampledFrom([]string{"A.scanned", "B.scanned", "B.scanned"}).Draw(t, "faultPoint"), Nth: rapid.IntRange(1, 3).Draw(t, "faultNth")}
+		} else {
+			p.Stop = &vfStopAt{Point: rapid.SampledFrom(vfStopPoints).Draw(t, "stopPoint"), Nth: rapid.IntRange(1, 4).Draw(t, "nth")}
+		}
 		c.Runs = append(c.Runs, p)
 	}
 	c.Runs = append(c.Runs, vfGenPlan(t, "last", bl))
@@ -206,7 +220,7 @@ func vfGenC10(t *rapid.T) vfC10Case {
 
 var vfC10Spec = vlib.Spec[vfC10Case]{
 	Prop: "C10", Name: "graceful-stop-and-resume",
-	Rule: "keys from generated scalars, bit lengths 8..14, 1-3 graceful interruptions (StopPlot issued at the n-th occurrence of a named point of pass A or B: iteration start, window chosen, data synced, checkpoint synced, final checkpoint, before removal of map A), each run with its own generated window caps (different before and after), last run uninterrupted; after every interruption the space is re-opened: plotted => table sound and complete, checkpoints within range and covered by data that already equals the final table, map A present while not plotted; resume must advance (a repeated or empty window is the deterministic verdict 'does not terminate'); final table sound+complete against the independent reference; non-trivial = at least one interruption that took effect after a window had been chosen; distinct = distinct case JSON",
+	Rule: "keys from generated scalars, bit lengths 8..14, 1-3 interruptions (StopPlot issued at the n-th occurrence of a named point of pass A or B: iteration start, window chosen, data synced, checkpoint synced, final checkpoint, before removal of map A; or, in a fifth of them, a failing flush: the data file of the pass is read-only for the window just computed), each run with its own generated window caps (different before and after), last run uninterrupted; after every interruption the space is re-opened: plotted => table sound and complete, checkpoints within range and covered by data that already equals the final table, map A present while not plotted; resume must advance (a repeated or empty window is the deterministic verdict 'does not terminate'); final table sound+complete against the independent reference; non-trivial = at least one interruption that took effect after a window had been chosen; distinct = distinct case JSON",
 	Gen:  vfGenC10, Run: vfC10Run,
 }
 
